@@ -80,6 +80,15 @@ CLAIMED = {
             "parents declared first, index file = data file without raw data and with TDSh (CRC per segment).",
             "Trusted: TLC, independent structural parser (harness/parser.py).",
             "DESIGN.md 3.2, 5/C08"),
+    "C10": ("TLA+ TdmsDefragment (defragment as derived writer behaviour over TdmsSegments): TLC checks DefragPreserves "
+            "over all enumerated source files; every source file run through the real TdmsWriter.defragment and "
+            "compared with source and with the specification's view of the copy",
+            "Model checking of the copy's view against the source's view plus spec->code conformance on every source "
+            "file: groups, channels, lengths, bit-identical raw values, raw-precision timestamp properties, data type "
+            "when non-empty, scaled data; path and stream destinations, with and without index.",
+            "Trusted: TLC, encoder, projection. One open known finding (with-unit float types, D12) is matched by "
+            "its exact signature only.",
+            "DESIGN.md 3.7, 5/C10"),
     "C15": ("TLA+ TdmsSegments: byte order is an attribute of the encoding only; TLC enumerates per-segment byte-order "
             "assignments, each file replayed in 4 byte-order variants against the one specification view",
             "Model checking + spec->code conformance: all 2^k per-segment byte-order assignments (k<=2) over "
